@@ -328,7 +328,7 @@ def get(invalid_methods=('POST', 'PUT', 'DELETE'), debug=False, **kwargs):
                 if len(atoms) != 1 or not atoms[0].isdigit():
                     raise cherrypy.HTTPError(
                         400, 'Invalid Cache-Control header')
-                max_age = int(atoms[0])
+                max_age = min(max_age, int(atoms[0]))
                 break
             elif directive == 'no-cache':
                 if debug:
